@@ -159,6 +159,42 @@ LAST = {}              # observations of the most recent auth_impl call (tapes h
 CASE_SECONDS = 6.0          # generous: a loaded machine must never turn a slow case into an ABORT (the call budget is the deterministic bound)
 
 
+# ---- watchdog for loops *inside* one instruction (the run_tape budget cannot see them): a daemon thread injects HarnessAbort into
+# the thread that runs the case once the case is well past its wall-clock cap
+import threading as _threading, ctypes as _ctypes
+_WATCH = {'tid': None, 'deadline': None, 'fired': False, 'mark': None}
+_WATCH_LOCK = _threading.Lock()
+_WATCH_STARTED = [False]
+
+def _watch_loop():
+    import time as _t
+    while True:
+        _t.sleep(0.25)
+        with _WATCH_LOCK:
+            if _WATCH['deadline'] is not None and not _WATCH['fired'] and _t.time() > _WATCH['deadline']:
+                _WATCH['fired'] = True
+                if _WATCH['mark'] is not None: _WATCH['mark']()
+                _ctypes.pythonapi.PyThreadState_SetAsyncExc(_ctypes.c_ulong(_WATCH['tid']), _ctypes.py_object(HarnessAbort))
+
+def watch_begin(seconds, mark=None):
+    """arm the watchdog for the current thread; `mark` is called (in the watchdog thread) when it fires"""
+    import time as _t
+    if not _WATCH_STARTED[0]:
+        _WATCH_STARTED[0] = True
+        _threading.Thread(target=_watch_loop, daemon=True).start()
+    with _WATCH_LOCK:
+        _WATCH.update(tid=_threading.get_ident(), deadline=_t.time() + seconds, fired=False, mark=mark)
+
+def watch_end():
+    """disarm; returns True when the watchdog had fired for this case"""
+    with _WATCH_LOCK:
+        fired = _WATCH['fired']
+        _WATCH['deadline'] = None
+        if fired:
+            _ctypes.pythonapi.PyThreadState_SetAsyncExc(_ctypes.c_ulong(_WATCH['tid']), None)      # cancel if not yet delivered
+    return fired
+
+
 def case_seconds(factor):
     """wall-clock cap of one case: generous while the implementation has not been seen running away (so a
     loaded machine never turns a slow case into an ABORT), short once two retries with the enlarged budget
@@ -180,6 +216,8 @@ class Capture:
         import time as _t
         cap.deadline = _t.time() + case_seconds(cap.factor)
         budget = RUN_TAPE_BUDGET * cap.factor
+        def _mark(): cap.calls = RUN_TAPE_BUDGET * RETRY_FACTOR * 2
+        watch_begin(case_seconds(cap.factor) * 2 + 3, _mark)
         def run_tape(tape, stack, cache, additional_flags={}):
             if cap.depth == 0:
                 cap.tops.append((tape, stack, cache))
@@ -197,7 +235,8 @@ class Capture:
         self.F.run_tape = run_tape
         return self
     def __exit__(self, *a):
-        self.F.run_tape = self.orig
+        try: watch_end()
+        finally: self.F.run_tape = self.orig
 
 
 class Env:
@@ -266,10 +305,19 @@ def render(status, stack, cache, log, cnt, rand):
             f'plog={",".join(map(str, log)) or "-"} taint=? cnt={cnt} rand={rand}')
 
 
+def _guarded(fn, *a):
+    """the watchdog's exception can arrive while the context managers unwind: such a case is an ABORT"""
+    try: return fn(*a)
+    except HarnessAbort:
+        try: watch_end()
+        except HarnessAbort: pass
+        return None
+
+
 def run_impl(cfg: Cfg, cache_in: dict, script: bytes) -> str:
-    o = _run_impl(cfg, cache_in, script, 1)
+    o = _guarded(_run_impl, cfg, cache_in, script, 1) or 'ABORT stack=? cache=? ret=0 plog=- taint=? cnt=0 rand=0'
     if o.startswith('ABORT') and RUNAWAYS[0] < RUNAWAY_LIMIT:
-        o = _run_impl(cfg, cache_in, script, RETRY_FACTOR)      # legitimately heavy (but terminating) scripts exist: give them room once
+        o = _guarded(_run_impl, cfg, cache_in, script, RETRY_FACTOR) or 'ABORT stack=? cache=? ret=0 plog=- taint=? cnt=0 rand=0'      # legitimately heavy (but terminating) scripts exist: give them room once
         if o.startswith('ABORT'): RUNAWAYS[0] += 1
     return o
 
@@ -297,9 +345,9 @@ def _run_impl(cfg: Cfg, cache_in: dict, script: bytes, factor: int) -> str:
 
 
 def auth_impl(cfg: Cfg, cache_in: dict, scripts) -> str:
-    o = _auth_impl(cfg, cache_in, scripts, 1)
+    o = _guarded(_auth_impl, cfg, cache_in, scripts, 1) or 'RAISED:HarnessAbort ? stack=? cache=? ret=0 plog=- taint=? cnt=0 rand=0'
     if o.startswith('RAISED:HarnessAbort') and RUNAWAYS[0] < RUNAWAY_LIMIT:
-        o = _auth_impl(cfg, cache_in, scripts, RETRY_FACTOR)
+        o = _guarded(_auth_impl, cfg, cache_in, scripts, RETRY_FACTOR) or 'RAISED:HarnessAbort ? stack=? cache=? ret=0 plog=- taint=? cnt=0 rand=0'
         if o.startswith('RAISED:HarnessAbort'): RUNAWAYS[0] += 1
     return o
 
